@@ -152,6 +152,58 @@ def unit_binary(unit):
     return agg
 
 
+def unit_binary_long(unit):
+    """size thresholds: operands of 17 / 33 / 65 / 129 elements (cycled alphabets, the right operand shifted by one so that the
+    operand order matters), every operator and operand form, plus a length mismatch of one at these sizes"""
+    from serif import Vector
+    _, ka, kb = unit
+    agg = Agg()
+    A, B = ALPHA[ka], ALPHA[kb]
+    for n in (17, 33, 65, 129):
+        xs = [A[i % len(A)] for i in range(n)]
+        ys = [B[(i + 1) % len(B)] for i in range(n)]
+        for opn, op in list(OPS.items()) + list(UNARY.items()):
+            if opn in UNARY:
+                try:
+                    want = [op(x) for x in xs]
+                except Exception:
+                    continue
+                agg.evals += 1; agg.transitions += 1; agg.states += 1
+                try:
+                    if judge(agg, f"unary.{opn}.long", op(Vector(list(xs))), want, {"op": opn, "kind": ka, "len": n}, []):
+                        agg.outcomes["long-agree"] += 1
+                except Exception as e:
+                    agg.violation(V(f"unary.{opn}.long", "raises-" + type(e).__name__, {"op": opn, "kind": ka, "len": n}, None, repr(e)[:80]))
+                continue
+            want, rwant = py_elementwise(op, xs, ys), py_elementwise(op, ys, xs)
+            swant, rswant = py_elementwise(op, xs, [ys[0]] * n), py_elementwise(op, [ys[0]] * n, xs)
+            for form, w in (("vv", want), ("vl", want), ("vt", want), ("lv", rwant), ("vs", swant), ("sv", rswant)):
+                if w is None:
+                    agg.skipped["python-raises"] += 1
+                    continue
+                if form == "sv" and isinstance(ys[0], str) and opn == "mod":
+                    continue
+                agg.evals += 1; agg.transitions += 1; agg.states += 1; agg.nontrivial += 1
+                case = {"op": opn, "kinds": [ka, kb], "len": n, "form": form, "family": "long operands"}
+                v = Vector(list(xs))
+                try:
+                    res = {"vv": lambda: op(v, Vector(list(ys))), "vl": lambda: op(v, list(ys)), "vt": lambda: op(v, tuple(ys)), "lv": lambda: op(list(ys), v),
+                           "vs": lambda: op(v, ys[0]), "sv": lambda: op(ys[0], v)}[form]()
+                except Exception as e:
+                    agg.violation(V(f"binary.{opn}.{form}.long", "raises-" + type(e).__name__, case, None, repr(e)[:80]))
+                    continue
+                if judge(agg, f"binary.{opn}.{form}.long", res, w, case, [v]):
+                    agg.outcomes["long-agree"] += 1
+            for form in ("vv", "vl"):
+                agg.evals += 1; agg.compared += 1
+                try:
+                    r = op(Vector(list(xs)), Vector(list(ys[:-1])) if form == "vv" else list(ys) + [ys[0]])
+                    agg.violation(V(f"binary.{opn}.{form}.long", "length-mismatch-accepted", {"op": opn, "len": n}, "error", len(r._underlying) if hasattr(r, "_underlying") else None))
+                except Exception:
+                    agg.outcomes["length-mismatch-raises"] += 1
+    return agg
+
+
 def unit_mismatch(unit):
     """Differing lengths raise: nothing truncated, recycled or broadcast."""
     from serif import Vector
@@ -645,6 +697,7 @@ def check(ctx):
     units = [("bin", a, b, L) for a in kinds for b in kinds]
     units += [("bin", "date", "timedelta", L), ("bin", "int", "timedelta", 1)]
     parts = core.pmap(unit_binary, units)
+    parts += core.pmap(unit_binary_long, [("binlong", a, b) for a in kinds for b in kinds])
     parts += core.pmap(unit_mismatch, [("mm", k) for k in ("int", "float", "str", "bool")])
     parts += core.pmap(unit_unary, [("un", k, L + 1) for k in ("bool", "int", "float", "complex")])
     parts += core.pmap(unit_dates, [("dates",)])
